@@ -129,7 +129,8 @@ PROPS['C09'] = dict(
                'A-std: the hashbrown table behaves as a mathematical map keyed by string content (vx/units/intern/prelude.rs)'],
 )
 PROPS['C10'] = dict(
-  level='other',
+  level='proof',
+  verus=[dict(unit='listops', min_functions=6), dict(unit='gctrace', min_functions=1)],
   kani=[dict(crate='coll', harnesses=['proofs::o10r_value_identity_no_growth'], kind='bounded', bound='two lists of one element', timeout=900, jobs=1, assumption_ids=['A-kani', 'A-bound']),
         dict(crate='coll', harnesses=['proofs::o10_push_grows', 'proofs::o10_value_identity_across_growth'], kind='bounded', bound='one list len 1 cap 1, one push', timeout=1800, jobs=2, mem_gb=16,
              assumption_ids=['A-kani', 'A-stub', 'A-bound']),
@@ -137,16 +138,16 @@ PROPS['C10'] = dict(
              assumption_ids=['A-kani', 'A-bound']),
         dict(crate='coll', harnesses=['proofs::o10_stale_push', 'proofs::o10_stale_remove', 'proofs::o10_stale_insert'], kind='bounded', bound='forwarded list, relocated len <= 3, cap 3, every index 0..4, no second growth',
              tier='thorough', timeout=2400, jobs=3, mem_gb=20, assumption_ids=['A-kani', 'A-bound'])],
-  explanation='bounded function-contract checks (Kani) on the real List forwarding representation; Value identity across growth is a known finding',
+  explanation='Verus: the real List operations against a sequence model through any handle, with growth and forwarding (unbounded); Kani (bounded) on the real raw vector representation; Value identity across growth is a known finding',
   not_decided=['which aliases scan_roots rewrites; maps, instances and other mutable objects (they never relocate: identity is the address)'],
 )
 PROPS['C11'] = dict(
-  level='other',
+  level='proof',
   kani=[dict(crate='lib', harnesses=['proofs::o11_determine_index', 'proofs::o11_list_determine_index'], kind='complete', extra=['-Z', 'unstable-options', '--no-overflow-checks'], timeout=900, jobs=2, assumption_ids=['A-kani']),
         dict(crate='coll', harnesses=['proofs::o11_pop'], kind='bounded', bound='list len <= 2, cap 3', timeout=900, jobs=1, assumption_ids=['A-kani', 'A-bound']),
         dict(crate='coll', harnesses=['proofs::o11_remove', 'proofs::o11_insert'], kind='bounded', bound='list len <= 3, cap 3, every index 0..4', tier='thorough', timeout=1800, jobs=2, assumption_ids=['A-kani', 'A-bound'])],
-  verus=[dict(unit='native', min_functions=1), dict(unit='ncall', min_functions=1)],
-  explanation='loop-free Kani proof of index normalisation over every f64 (receiver length <= 8), bounded Kani checks of List buffer edits against a sequence model, Verus proof of the native signature gate',
+  verus=[dict(unit='listops', min_functions=6), dict(unit='native', min_functions=1), dict(unit='ncall', min_functions=1)],
+  explanation='Verus proof of the real List push / pop / insert / remove against the sequence model (unbounded, with growth); loop-free Kani proof of index normalisation over every f64 (receiver length <= 8), bounded Kani checks of List buffer edits against a sequence model, Verus proof of the native signature gate',
   not_decided=['iterator adaptors, string natives, map natives, tuple/list natives other than index normalisation (callbacks, Hooks, str)'],
 )
 PROPS['C17'] = dict(
